@@ -16,9 +16,16 @@
    bypass cache (BF); their rows are compared with ChangesFeed.v.
    CNotify: one call of the real channelCacheImpl.AddToCache: the channels that have a cache, the
            entry's sequence and channel map, the channel ids returned (sorted) and the caches that
-           received the entry: Notify.v must predict both. *)
+           received the entry: Notify.v must predict both.
+   CDedup: every document mutation the REAL changeCache.DocChanged of a real database received in one
+           scenario (collection id; per event the document, its sync metadata as carried by the event --
+           sequence, revision, recent_sequences, unused_sequences, channel map with removals --, the
+           cache's next sequence and which of the recent sequences were in the skipped list) and every
+           entry that reached channelCacheImpl.AddToCache (collection id, sequence, document, revision,
+           channel map), first occurrence per sequence, ascending: Dedup.v (doc_changed) must predict
+           exactly these entries. *)
 From SG Require Export Base.Prelude C20.SeqIdGen C20.SeqId C20.SeqIdCodec C01.ChanCache C01.Merge C01.Visible.
-From SG Require Export C01.VisibleTok C01.ChangesFeed C01.Notify.
+From SG Require Export C01.VisibleTok C01.ChangesFeed C01.Notify C01.Dedup.
 Open Scope N_scope.
 
 Definition E (s d r : N) (rm del : bool) : entry := mkE s d r rm del.
@@ -94,7 +101,30 @@ Inductive case :=
 | CComp (vf0 maxl minl : N) (steps : list (xop * cobs))
 | CMerge (feeds : list (list row)) (ao : bool) (hi limit low : N) (out : list row)
 | CSys (hist : list hop) (reqs : list (req * list row))
-| CNotify (active : list N) (seq : N) (chs : list (N * option N)) (notified : list N) (adds : list (N * bool)).
+| CNotify (active : list N) (seq : N) (chs : list (N * option N)) (notified : list N) (adds : list (N * bool))
+| CDedup (coll : N) (events : list (N * syncd * N * list N)) (observed : list dlv).
+
+Definition SD (seq rev : N) (recent unused : list N) (chs : list (N * option (N * N))) : syncd := mkSD seq rev recent unused chs.
+Definition DE (coll seq doc rev : N) (chs : list (N * option N)) : dlv := DEntry coll seq doc rev false chs.
+
+Definition dlv_seq (d : dlv) : N := match d with DUnused s => s | DEntry _ s _ _ _ _ => s end.
+Definition is_dentry (d : dlv) : bool := match d with DEntry _ _ _ _ _ _ => true | _ => false end.
+(* ascending by sequence, first occurrence kept *)
+Fixpoint dins (d : dlv) (l : list dlv) : list dlv :=
+  match l with
+  | [] => [d]
+  | x :: r => if dlv_seq d <? dlv_seq x then d :: l else if dlv_seq d =? dlv_seq x then l else x :: dins d r
+  end.
+Definition chs_eqb := list_eqb (fun (a b : N * option N) => (fst a =? fst b) && option_eqb N.eqb (snd a) (snd b)).
+Definition dlv_eqb (a b : dlv) : bool :=
+  match a, b with
+  | DEntry c s d r _ chs, DEntry c' s' d' r' _ chs' => (c =? c') && (s =? s') && (d =? d') && (r =? r') && chs_eqb chs chs'
+  | DUnused s, DUnused s' => s =? s'
+  | _, _ => false
+  end.
+Definition dedup_entries (coll : N) (events : list (N * syncd * N * list N)) : list dlv :=
+  fold_left (fun acc d => dins d acc)
+    (flat_map (fun ev => match ev with (doc, sd, next, sk) => filter is_dentry (doc_changed coll doc sd next sk) end) events) [].
 
 Definition check (c : case) : bool :=
   match c with
@@ -105,6 +135,7 @@ Definition check (c : case) : bool :=
       let r := add_to_cache_all active seq chs in
       list_eqb N.eqb (fst r) notified
       && list_eqb (fun a b => (fst a =? fst b) && Bool.eqb (snd a) (snd b)) (snd r) adds
+  | CDedup coll events observed => list_eqb dlv_eqb (dedup_entries coll events) observed
   end.
 
 Definition mismatches (cs : list case) : list N := failing check cs.
